@@ -117,17 +117,17 @@ theorem unvisited_cons_lt (reg : Registry) (v : List Nat) (m : Mod) (hm : m ∈ 
   · simpa using hv
   · simp
 
-theorem byId_mem (reg : Registry) (id : Nat) (m : Mod) (h : reg.byId id = some m) : m ∈ reg.mods :=
+private theorem byId_mem (reg : Registry) (id : Nat) (m : Mod) (h : reg.byId id = some m) : m ∈ reg.mods :=
   List.mem_of_find?_eq_some h
 
-theorem getModule_mem (reg : Registry) (k : String) (m : Mod) (h : reg.getModule k = some m) :
+private theorem getModule_mem (reg : Registry) (k : String) (m : Mod) (h : reg.getModule k = some m) :
     m ∈ reg.mods := by
   unfold Registry.getModule at h
   cases hk : reg.modules.get? k with
   | none => simp [hk] at h
   | some id => rw [hk] at h; exact byId_mem reg id m h
 
-theorem getSub_mem (reg : Registry) (k : String) (m : Mod) (h : reg.getSub k = some m) :
+private theorem getSub_mem (reg : Registry) (k : String) (m : Mod) (h : reg.getSub k = some m) :
     m ∈ reg.mods := by
   unfold Registry.getSub at h
   cases hk : reg.subModules.get? k with
@@ -135,7 +135,7 @@ theorem getSub_mem (reg : Registry) (k : String) (m : Mod) (h : reg.getSub k = s
   | some id => rw [hk] at h; exact byId_mem reg id m h
 
 /-- Whatever `FindModule` returns has been loaded. -/
-theorem findModule_mem (reg : Registry) (isInclude : Bool) (i : Stmt) (m : Mod)
+private theorem findModule_mem (reg : Registry) (isInclude : Bool) (i : Stmt) (m : Mod)
     (h : reg.findModule isInclude i = some m) : m ∈ reg.mods := by
   have key : ∀ k, (if isInclude then reg.getSub else reg.getModule) k = some m → m ∈ reg.mods := by
     intro k hk
